@@ -220,6 +220,20 @@ def make_problem(rng, p=None, q=None, K_kind=None, n=None, s_kind=None, units=No
     d["scatter_kms"] = scatter
     d["err_rel"] = es
     d["layout"] = layout
+    # "nice" prior numbers: constants that are exactly representable in float32 (as 6000.0, 0.5, -300.0 are) become float32
+    # constants in the pytensor graph; whatever the package does with them, the declared value is this number.  Decided from the
+    # declared content (no generator call), for about half of the problems.
+    if int(abs(float(d["P"]["P_min"])) * 1e6) % 2 == 1:
+        f32 = lambda x: float(np.float32(x))      # noqa: E731
+        if d["K"]["kind"] == "normal":
+            d["K"]["mu"], d["K"]["sigma"] = f32(d["K"]["mu"]), f32(d["K"]["sigma"])
+        else:
+            d["K"]["mu"] = f32(d["K"]["mu"])
+        for v in d["v"]:
+            v["mu"], v["sigma"] = f32(v["mu"]), f32(v["sigma"])
+        for o in d["offsets"]:
+            o["mu"], o["sigma"] = f32(o["mu"]), f32(o["sigma"])
+        d["float32_representable_prior_numbers"] = True
     if build:
         build_objects(pr)
     return pr
